@@ -60,6 +60,8 @@ def build_kwargs(step, G, shared, family):
     use = step.get("use", [])
     if cls == "MinErrorFlow":
         use = [u for u in use if u in ("solver_options", "elements_to_ignore", "error_scaling")]
+        if step.get("eps") is not None:
+            kw["few_flow_values_epsilon"] = step["eps"]  # two-stage solve: the model is replaced between the stages
     if step.get("threads") is not None and "solver_options" not in use:
         kw["solver_options"] = {"threads": step["threads"], "time_limit": 60}
     if "optimization_options" in use:
@@ -313,12 +315,14 @@ def make_machine(tier, rec, raise_on_new):
             except Exception:
                 self.dead = True
 
-        @rule(ci=st.integers(0, 6), use=st.lists(st.sampled_from(SHAREABLE), max_size=4, unique=True), dk=st.integers(0, 2), defer=st.sampled_from([False, False, True]), threads=st.sampled_from([None, None, 1, 2]))
-        def construct_and_solve(self, ci, use, dk, defer, threads):
+        @rule(ci=st.integers(0, 6), use=st.lists(st.sampled_from(SHAREABLE), max_size=4, unique=True), dk=st.integers(0, 2), defer=st.sampled_from([False, False, True]), threads=st.sampled_from([None, None, 1, 2]), eps=st.sampled_from([0.25, None, 1, None]))
+        def construct_and_solve(self, ci, use, dk, defer, threads, eps):
             if self.dead or self.it is None or rec.expired():
                 return
             fam = (DAG if self.case["family"] == "dag" else CYC) + ["MinErrorFlow"]
             step = {"cls": fam[ci % len(fam)], "use": sorted(use), "k": max(1, self.case.get("k0", 2) + dk - 1)}
+            if step["cls"] == "MinErrorFlow" and eps is not None:
+                step["eps"] = eps
             if defer:
                 step["defer"] = True
             if threads is not None and "solver_options" not in step["use"]:
